@@ -246,6 +246,23 @@ def rand_items(rng, names, maxlen=6):
     return items
 
 
+def expand_once(rng, items, pool):
+    """another spelling: some derived elements replaced by their definition"""
+    defs = {n: d for n, k, f, d in POOL} if pool == "harness" else {}
+    out = []
+    for (k, x), e in items:
+        if k == "e" and defs.get(x) and rng.random() < 0.8:
+            for (kk, xx), ee in defs[x]:
+                if kk == "n":
+                    out.append((("n", (F(xx), num(F(xx)))), ee * e))
+                else:
+                    out.append((("e", xx), ee * e))
+        else:
+            out.append(((k, x), e))
+    rng.shuffle(out)
+    return out
+
+
 def model_items(items):
     return [((k, x[0] if k == "n" else x), e) for (k, x), e in items]
 
@@ -296,6 +313,11 @@ def term_case(chk, rng, pool, items1, items2=None, exhaustive=False):
                                    "reciprocal")]},
         {"k": "h.pow-mul", "e": ["eqhash", OP("**", V("t1"), ["i", 2]),
                                  OP("*", V("t1"), V("t1"))]},
+        # the quotient of two terms against the empty term
+        {"k": "q.empty", "e": ["eqhash", OP("/", V("t1"), V("t2")),
+                               ["term", []]]},
+        {"k": "q.empty-r", "e": ["eqhash", ["term", []],
+                                 OP("/", V("t1"), V("t2"))]},
     ]
     m1, m2 = model_items(items1), model_items(items2)
     d1, d2 = den_items(m1, dens), den_items(m2, dens)
@@ -394,8 +416,12 @@ def term_case(chk, rng, pool, items1, items2=None, exhaustive=False):
                    "h.div-rec", "h.pow-mul"):
             expect_eq(hk, True, "equal results (%s)" % hk[2:])
             chk.count("equal operation results compared")
+        expect_eq("q.empty", d1 == d2, "t1 / t2 == Term(())")
+        expect_eq("q.empty-r", d1 == d2, "Term(()) == t1 / t2")
         if d1 == d2 and m1 != m2:
             chk.count("equal pairs with different items")
+            if any(k == "e" and x not in base for (k, x), e in m1 + m2):
+                chk.count("equal pairs that cancel only after expansion")
         if bad:
             floaty = any("float" in b for b in bad)
             order = any("order" in b or "sequence" in b for b in bad)
@@ -426,7 +452,8 @@ def run(chk, R, tier, seed):
               "convertible pair merged", "nested definition depth >= 2",
               "pool|harness", "pool|units",
               "equal pairs with different items",
-              "equal operation results compared"):
+              "equal operation results compared",
+              "equal pairs that cancel only after expansion"):
         chk.require(c)
     hnames = [n for n, *_ in POOL]
     unames = list(UNIT_DEN)
@@ -456,7 +483,9 @@ def run(chk, R, tier, seed):
         items1 = rand_items(rng, names)
         items2 = None
         r = rng.random()
-        if r < 0.25 and items1:
+        if r < 0.15 and items1 and pool == "harness":
+            items2 = expand_once(rng, items1, pool)
+        elif r < 0.35 and items1:
             # a second spelling of the same term
             items2 = items1[:]
             rng.shuffle(items2)
